@@ -209,11 +209,16 @@ def events_for_class(c: dict, pairs: list, ident: int, desc: dict) -> tuple:
                 y = copy.copy(x) if how == 'copy' else copy.deepcopy(x)
                 o = {'k': 'ok', 'vals': [getattr(y, NAMES[i]) for i in range(n)], 'set': sorted(y.dict(set_only=True))}
                 isnew, eqorig = ('T' if y is not x else 'F'), ('T' if y == x else 'F')
+                # the copy's record of set fields is its own: an assignment to the copy leaves the original's alone
+                indep = 'na'
+                if c['frozen'] == 'F' and y is not x:
+                    setattr(y, NAMES[n - 1], 0)
+                    indep = 'T' if sorted(x.dict(set_only=True)) == before and NAMES[n - 1] in y.dict(set_only=True) else 'F'
             except Exception as e:  # noqa
-                o, isnew, eqorig = {'k': 'exc', 'c': type(e).__name__}, 'F', 'F'
+                o, isnew, eqorig, indep = {'k': 'exc', 'c': type(e).__name__}, 'F', 'F', 'na'
             ident += 1
             evs.append({'id': ident, 'op': 'copyop', 'how': how, 'cls': c, 'vals': vals, 'set_before': before, 'names': NAMES[:n],
-                        'ch': [], 'out': o, 'isnew': isnew, 'eqorig': eqorig, 'hook': counter[0] - h0})
+                        'ch': [], 'out': o, 'isnew': isnew, 'eqorig': eqorig, 'hook': counter[0] - h0, 'indep': indep})
             desc[ident] = (f'{how} of {vals} set={before}', c)
         for ch in ([[n, 2]], [[1, 2]], [[n, -1]]):
             kwargs = {NAMES[i - 1]: (v if v != -1 else 'zz') for i, v in ch}
